@@ -19,6 +19,7 @@ def generate(ctx):
             t = G.deep_text(kind, d)
             v = None
             cases.append(G.pcase('L', 0, len(t), t, {'tags': ['valid', 'depth%d' % d], 'accept_only': True}))
+    if ctx.get('seed_index', 0) == 0: cases += G.stream_wide(rng)
     for nt in G.NUM_TEXTS_OK:
         for e in ('L', 'P'):
             t = nt.encode()
